@@ -99,6 +99,39 @@ NEEDS.update({
 })
 SRC_OVERRIDE.update({n: "/tmp/mut2/%s/_out/%s" % (n[:3], "A" if n[3] == "C" else "B") for n in NEEDS if n[3] in "CD"})
 
+# round 3: organised by source file (each agent got all twenty properties and one group of files); ids R3<files><A|B|C>
+NEEDS.update({
+ "C15C": ("C15", "G1 osswu_map skips the final projective scaling when gx0_den == 1 (the CUBE of the denominator)", "the four t for which the x-denominator is a primitive cube root of unity"),
+ "C15D": ("C15", "Fq2::mul_assign shortcut when self.c0 == 1 (treats 1 + d*i as 1)", "left operands of the form 1 + d*i, reached in the G2 SWU for constructed t"),
+ "R3serdesA": ("C19", "Fq12 deserialize wraps the reader in a BufReader", "anything following the 576 bytes in the stream"),
+ "R3serdesB": ("C19", "G2 uncompressed deserialize uses read() for the second half", "short reads / truncated identity encodings"),
+ "R3serdesC": ("C19", "G1Affine deserialize: one-directional flag check + branch chosen by the data's own flag", "a compressed encoding read with compressed = false"),
+ "R3librsA": ("C11", "pairing_multi_product filters identities out of the G1 and G2 slices independently, then zips", "an identity in only one component of a non-final pair"),
+ "R3librsB": ("C01", "default sub_assign gains an 'a - a' shortcut that compares against the already negated operand", "sub_assign with opposite operands (returns O instead of 2P); wNAF [r-2]P"),
+ "R3librsC": ("C13", "XMD 255-block guard evaluated with floor division before ell is computed", "lengths strictly between 255 and 256 blocks"),
+ "R3pairingA": ("C12", "final_exponentiation returns Some(1) when conj(f) == f", "f = 0"),
+ "R3pairingB": ("C11", "pairing_multi_product filters G1 identities out of one prepared list only", "a G1 identity at a non-final position"),
+ "R3pairingC": ("C11", "pairing_product 'trivial pair' shortcut returns pairing(p1, q2) when the second pair is trivial", "second pair contains an identity"),
+ "R3g1g2A": ("C07", "G1Affine::in_subgroup drops the curve-equation conjunct", "an off-curve pair of order r on an isomorphic curve, (s^2 x, s^3 y)"),
+ "R3g1g2B": ("C04", "G2Uncompressed: sort-flag error deferred until after the coordinate range checks", "sort flag set AND a non-reduced coordinate: wrong error category (order of validations)"),
+ "R3g1g2C": ("C03", "G2Affine::perform_pairing returns Fq12::zero() for identity operands", "pairing_with from the G2 side with an identity"),
+ "R3hashingA": ("C13", "XMD block count rounded down, loop runs one extra block", "lengths strictly between 255 and 256 blocks return bytes instead of aborting"),
+ "R3hashingB": ("C15", "G2 osswu_map sign alignment uses u.c0.sgn0()", "purely imaginary t with odd c1"),
+ "R3hashingC": ("C14", "map2_to_curve adds on the isogenous curve unless p1 == p2", "distinct inputs with coinciding SSWU images"),
+ "R3towerA": ("C09", "Fq12::frobenius_map indexes its table with power % 6", "k mod 12 in 6..=11 on an element with non-zero w-part"),
+ "R3towerB": ("C18", "Fq2 partial_cmp written by hand: tie-break compares self.c0 with other.c1", "operands with equal u-coefficients through <, >, <=, >="),
+ "R3towerC": ("C18", "Fq2::sqrt starts with 'if legendre() != QuadraticResidue { None }'", "the input 0 (Legendre symbol Zero): sqrt(0) = None"),
+ "R3ecmodA": ("C02", "mul_precomp_3 first nibble (bits[3] >> 61) & 8", "scalars with bit 255 set"),
+ "R3ecmodB": ("C10", "sum_of_products_precomp_256 bounds the term count by pre.len() >> 8", "fewer points than scalars with a table that covers more points"),
+ "R3ecmodC": ("C01", "batch_normalization first pass filters with !is_zero(), later passes with !is_normalized()", "an already-normalised non-identity entry after a non-normalised one"),
+})
+def _r3src(n):
+    import re
+    m = re.match(r"R3([a-z0-9]+)([ABC])$", n)
+    return "/tmp/mut3/%s/_out/%s" % (m.group(1), m.group(2))
+SRC_OVERRIDE.update({n: _r3src(n) for n in NEEDS if n.startswith("R3")})
+SRC_OVERRIDE.update({n: "/tmp/mut2/%s/_out/%s" % (n[:3], "A" if n[3] == "C" else "B") for n in NEEDS if not n.startswith("R3") and n[3] in "CD"})
+
 
 def first_line(path, pat):
     try:
@@ -136,11 +169,11 @@ def main():
                 detection[chk] = "not detected (OK)"
             else:
                 detection[chk] = "inconclusive: " + txt[:200]
-        meta = dict(id=name, property_attacked=name[:3], property_broken=prop, change=what, needs_to_manifest=needs,
+        meta = dict(id=name, property_attacked=(name[:3] if not name.startswith("R3") else "(any; organised by source file)"), property_broken=prop, change=what, needs_to_manifest=needs,
                     confirmed_by_me=dict(demo_passes_on_clean_tree=res.get("demo_clean"), demo_with_change=res.get("demo_mut"),
                                          existing_suite_with_change=res.get("suite"), builds_with_feature_verif=res.get("build_verif")),
                     kept=bool(confirmed),
-                    ran=["tools/confirm_mut.sh %s %s (scratch worktree, debug profile)" % (name[:3], name[3]),
+                    ran=["tools/confirm_mut.sh ... %s (scratch worktree, debug profile: demo on clean tree, demo with change, 129-test suite with change)" % name,
                          "tools/eval_mut.sh <patch> %s <checks> (scratch worktree, VERIF_REPO, quick tier)" % name],
                     detection=detection)
         if name == "C05A":
